@@ -274,3 +274,30 @@ def _known_match(known, prop, rule, key):
         if k.get("property") == prop and k.get("rule") == rule and k.get("key") == key:
             return k
     return None
+
+
+class Only:
+    """Reporter proxy: forwards only the instances whose key starts with one of `prefixes`.  Used when a property borrows the clause of
+    another property's rule that concerns it, without repeating that rule's other clauses (in particular recorded findings, which are keyed
+    by property and rule)."""
+
+    def __init__(self, inner, prefixes):
+        self.inner, self.prefixes = inner, tuple(prefixes)
+
+    def _hit(self, key):
+        return str(key).startswith(self.prefixes)
+
+    def require(self, cond, key, *a, **k):
+        return self.inner.require(cond, key, *a, **k) if self._hit(key) else None
+
+    def violate(self, key, *a, **k):
+        return self.inner.violate(key, *a, **k) if self._hit(key) else None
+
+    def ok(self, key, *a, **k):
+        return self.inner.ok(key, *a, **k) if self._hit(key) else None
+
+    def undecided(self, key, *a, **k):
+        return self.inner.undecided(key, *a, **k) if self._hit(key) else None
+
+    def error(self, msg):
+        return self.inner.error(msg)
